@@ -10,7 +10,22 @@ Ties Model/SubWf.v to the real code of /repo:
   result_to_parent  the REAL Workflow._send_result_to_parent_workflow on every state
   subwf_rows        real engine runs (driver): a parent calling a child with extra / system-named input keys,
                     nested 3 deep, in a namespace, from with-items, in-process and via rpc; child rows vs model
-Oracle (no model): on the real engine's rows - the parent task ends in the child's state with the child's output as
+  env_tree          the environment clause ("every descendant ... evaluates its expressions against the root execution's
+                    environment"): Gen/EnvSites.v is TRANSLATED from the source on every run (translate/tr_envsites.py:
+                    the statements of data_flow.get_workflow_environment_dict as a Gallina Fixpoint; one record per
+                    ContextView(...) construction of mistral/ with where its environment layer comes from; the callers of
+                    expr.evaluate* of mistral/workflow, mistral/engine with the site whose context they use; fail closed).
+                    Real engine runs of generated trees (depth 0-3; plain, with-items and environment-passing callers;
+                    in-process / rpc; leaf ok / failing; root environment as dict or by name) read env() - YAQL and Jinja - at
+                    every expression site of every level: vars, task input / action parameters, publish, publish-on-error,
+                    output, output-on-error, on-success / on-error conditions (which branch ran), with-items expression
+                    (number of children), wait-before policy, target, base-input of an ad-hoc action; each observation is
+                    compared with Model/EnvTree.v env_seen of the translated site that builds that expression's context.
+                    Workflow `input` defaults are not evaluated by the engine (stored as text): no site.
+                    `timeout:` (tasks.RegularTask._get_timeout) builds its view WITHOUT an environment layer: env() is null
+                    there at every depth, the root included (listed EnvNone, exempt by name in the theorem; not in the oracle).
+Oracle (no model): at every depth every one of those sites sees the ROOT execution's environment, also below a caller
+  that handed its child an `env` of its own (signature env:site-not-root-env:<site>:<depth>); on the real engine's rows - the parent task ends in the child's state with the child's output as
   result; every descendant records the tree's root and the caller's namespace; every input key reaches the child as
   input (declared) or param (undeclared) with its value; index = item index; for names of the workbook grammar the
   definition found is the workbook-relative one, else the global one (caller's namespace first).
@@ -33,6 +48,17 @@ VIOLATION line with the signature shown; run before the fix, next to the then op
   M7 db api.py           load_workflow_definition orders namespaces ascending           resolve:wrong-definition
   M8 engine/actions.py   'index': index -> 'index': 0                                   subwf:system-param-wrong (with-items)
   M9 engine/utils.py     `if parent_wf_name != parent_wf_spec_name` -> `if '.' in parent_wf_name`   resolve:wrong-definition
+Environment clause (each: VIOLATION lines with a concrete tree as replay):
+  S2 workflow/data_flow.py add_workflow_variables_to_context: get_workflow_environment_dict(wf_ex) ->
+        {'__env': wf_ex.params.get('env', {})} (the independently seeded change that `./check C09` missed before)
+        translator: site becomes EnvOwnParams; theorem C09_env_root_everywhere breaks (sites_all_root);
+        oracle env:site-not-root-env:vars:1 / :2 / :3; correspondence agrees (the model follows the code)
+  E1 workflow/data_flow.py publish_variables: environment layer {'__env': <calling workflow>.params.get('env', {})}
+        translator: EnvOther; theorem breaks; correspondence disagrees (344 observations);
+        oracle env:site-not-root-env:publish:2 (depth >= 2 or below an environment-passing caller only)
+  E2 workflow/data_flow.py get_workflow_environment_dict: the `if wf_ex.root_execution_id:` recursion removed
+        translated Fixpoint changes: lemma env_dict_linked / theorem C09_env_dict_is_roots break; oracle at every site, depth >= 1
+  E3 the same recursion guarded by `and 'env' not in wf_ex.params`: TranslateError (test outside the subset), oracle as E2
 """
 import json
 import random
@@ -40,7 +66,7 @@ import random
 from harness import core
 from harness.core import coq_bool, coq_list, coq_str
 
-GEN = ['States']
+GEN = ['States', 'EnvSites']
 
 MANIFEST = {
     'level_text': 'Coq theorems over Model/SubWf.v: param split characterised pointwise for ALL dictionaries / declared lists '
@@ -49,11 +75,25 @@ MANIFEST = {
                   'propagation for all nesting depths; the character-set rstrip yields exactly the workbook prefix for every '
                   'workbook name when the spec name has no dot, and over-strips exactly when it has one; lookup order '
                   'workbook-relative then global, caller namespace before default; result class per child state. Model tied to '
-                  'the code by differential runs of the real schedule / resolve / hand-off functions and real engine runs.',
+                  'the code by differential runs of the real schedule / resolve / hand-off functions and real engine runs. '
+                  'Environment clause: for EVERY root environment, tree depth and execution of the tree (induction over the '
+                  'call depth, Model/EnvTree.v in_tree) and every site that builds an expression context for a workflow / task '
+                  '/ action, env() is the ROOT execution\'s environment, whatever environment an intermediate caller handed down '
+                  '(C09_env_root_everywhere, C09_env_dict_is_roots); a site reading the execution\'s own params is refuted at '
+                  'every depth >= 1 (C09_env_own_params_refuted). Tie: get_workflow_environment_dict and the list of '
+                  'ContextView constructions / evaluate callers with their environment layer are translated from the source '
+                  'on every run (Gen/EnvSites.v, fail closed), and real engine runs read env() at every expression site of '
+                  'every level and compare with the model (suite env_tree).',
     'level_note': 'Component level: "parent mirrors child over whole runs" and "continues exactly once" are checked here by the '
                   'implementation-side oracle on real engine runs only; the engine-level theorems come from Model/Engine.v. '
                   'Trusted: python str/dict semantics (rstrip compared by correspondence), SQL ordering of namespaces, the '
-                  'recording stubs that replace spec lookup / start in the schedule correspondence; YAQL evaluation.',
+                  'recording stubs that replace spec lookup / start in the schedule correspondence; YAQL evaluation. '
+                  'Environment clause: trusted are the translator\'s reading of the ContextView arguments (data layers named in '
+                  'DATA_LAYERS carry no __env key), env() = context[__env], the ORM relationship root_execution resolving '
+                  'root_execution_id (checked on the rows by the oracle); three sites are exempt by name in the theorem '
+                  '(Model/EnvTree.v exempt_sites): the `timeout:` view has no environment layer at any depth (env() is null '
+                  'there also in a root execution), _get_environment evaluates the stored environment against itself, the '
+                  'ad-hoc action view re-uses the one of RegularAction.schedule (observed on the engine instead).',
     'technique': 'Coq proof (list/string induction, pointwise dictionary lemmas) over hand model; differential correspondence; '
                  'row oracle on the real engine',
     'design_ref': '6 C09',
@@ -164,6 +204,7 @@ def rows_driver(seed):
     d = driver()
     if not _DRV.get('rows_defs'):
         d.reset(0)
+        _DRV['env_defs'] = False
         d.create_workflows(WF_ROWS, namespace='')
         d.create_workflows(WF_ROWS, namespace='ns1')
         _DRV['rows_defs'] = True
@@ -212,6 +253,7 @@ def gen_query(rng):
 def populate(defs):
     from mistral.db.v2 import api as db_api
     _DRV['rows_defs'] = False
+    _DRV['env_defs'] = False
     with db_api.transaction():
         db_api.delete_workflow_definitions()
         for i, (n, ns) in enumerate(defs):
@@ -678,6 +720,415 @@ def suite_subwf_rows(ctx):
     ctx.sample({'suite': 'subwf_rows', 'case': list(cases[4])})
 
 
+# ---------------------------------------------------------------------------
+# the environment every expression of an execution tree is evaluated against (Model/EnvTree.v, Gen/EnvSites.v)
+
+ENV_IMPORTS = ['Gen.EnvSites', 'Model.EnvTree']
+
+ENV_ACTIONS = """
+version: '2.0'
+env_adhoc:
+  base: verif.act
+  base-input:
+    tag: adhoc
+    value: <% env() %>
+env_adhoc_j:
+  base: verif.act
+  base-input:
+    tag: adhoc_j
+    value: "{{ env() }}"
+"""
+
+_ENV_WF_SITES = """
+  vars:
+    s_vars_y: <% env() %>
+    s_vars_j: "{{ env() }}"
+  output:
+    s_output_y: <% env() %>
+    s_output_j: "{{ env() }}"
+  output-on-error:
+    s_outerr_y: <% env() %>
+    s_outerr_j: "{{ env() }}"
+"""
+_ENV_COND = """
+      on-success:
+        - t_yes: <% env().get(tok) = 'ROOT' %>
+        - t_no: <% env().get(tok) != 'ROOT' %>
+"""
+_ENV_ECOND = """
+      on-error:
+        - t_eyes: "{{ env().get('tok') == 'ROOT' }}"
+        - t_eno: "{{ env().get('tok') != 'ROOT' }}"
+"""
+_ENV_PUB = """
+      publish:
+        s_publish_y: <% env() %>
+        s_publish_j: "{{ env() }}"
+      publish-on-error:
+        s_puberr_y: <% env() %>
+        s_puberr_j: "{{ env() }}"
+"""
+_ENV_TAIL = """
+    t_yes:
+      action: verif.act
+      input:
+        tag: "yes"
+        value: "{{ env() }}"
+      target: <% env().get(tgt) %>
+      wait-before: <% env().get(wb) %>
+      on-success: NEXT
+    t_no:
+      action: verif.act tag="no"
+      on-success: NEXT
+    t_adhoc:
+      action: env_adhoc
+      on-success: t_adhoc_j
+    t_adhoc_j:
+      action: env_adhoc_j
+    t_eyes:
+      action: verif.act tag="eyes"
+      on-success: fail
+    t_eno:
+      action: verif.act tag="eno"
+      on-success: fail
+"""
+ENV_MID = {'tok': 'MID', 'items': [7, 8, 9], 'wb': 0, 'tgt': 'midtgt', 'region': 'mid'}
+
+
+def _env_caller(name, withitems, passenv):
+    s = name + ':\n  input: [chain, {dflt: "<% env() %>"}]' + _ENV_WF_SITES + '  tasks:\n'
+    s += '    t_act:\n      action: verif.act tag="act" value=<% env() %>' + _ENV_PUB + _ENV_COND
+    s += _ENV_TAIL.replace('NEXT', 't_call')
+    s += '    t_call:\n'
+    if withitems:
+        s += '      with-items: i in <% env().get(items) %>\n'
+    s += '      workflow: <% $.chain[0] %>\n      input:\n        chain: <% $.chain.skip(1) %>\n'
+    if passenv:
+        s += '        env: %s\n' % json.dumps(ENV_MID)
+    s += _ENV_PUB.replace('s_pub', 's_call_pub') + _ENV_ECOND
+    s += '      on-success: t_adhoc\n'
+    return s
+
+
+def _env_leaf():
+    s = 'envL:\n  input: [chain, {dflt: "<% env() %>"}]' + _ENV_WF_SITES + '  tasks:\n'
+    s += '    t_act:\n      action: verif.act tag="boom" value=<% env() %>' + _ENV_PUB + _ENV_COND + _ENV_ECOND
+    s += _ENV_TAIL.replace('NEXT', 't_adhoc')
+    return s
+
+
+# P: plain caller, W: with-items caller (one child per item of env().items), E: plain caller that hands the
+# child an environment of its own (input key `env`, not declared by the child), L: leaf
+WF_ENV = "version: '2.0'\n" + _env_caller('envP', False, False) + _env_caller('envW', True, False) + \
+    _env_caller('envE', False, True) + _env_leaf()
+
+# observation -> the translated site (Gen/EnvSites.v site_name) that builds the context of that expression
+ENV_OBS_SITE = {
+    'vars': 'data_flow.add_workflow_variables_to_context',
+    'output': 'data_flow.evaluate_workflow_output', 'outerr': 'data_flow.evaluate_workflow_output',
+    'publish': 'data_flow.publish_variables', 'puberr': 'data_flow.publish_variables',
+    'call_publish': 'data_flow.publish_variables', 'call_puberr': 'data_flow.publish_variables',
+    'input': 'tasks.Task.get_expression_context', 'with_items': 'tasks.Task.get_expression_context',
+    'wait_before': 'tasks.Task.get_expression_context',
+    'target': 'tasks.RegularTask._get_target',
+    'cond': 'direct_workflow.DirectWorkflowController._find_next_tasks',
+    'adhoc': 'actions.RegularAction.schedule',
+}
+MISSING = '<no value: not evaluated or evaluation failed>'
+_ENV_SIGS = set()
+
+
+def env_obs_site(obs):
+    base = obs[:-2] if obs.endswith(('_y', '_j')) else obs
+    return ENV_OBS_SITE[base]
+
+
+def env_project(obs, env):
+    """what the observable of `obs` is when env() yields `env` there (None: env() is null)"""
+    base = obs[:-2] if obs.endswith(('_y', '_j')) else obs
+    if base in ('cond', 'with_items', 'wait_before', 'target'):
+        if env is None:
+            return MISSING            # .get on null fails the expression
+        if base == 'cond':
+            return env.get('tok') == 'ROOT'
+        if base == 'with_items':
+            return len(env['items']) if isinstance(env.get('items'), list) else MISSING
+        if base == 'wait_before':
+            return bool(env['wb']) if isinstance(env.get('wb'), int) else MISSING
+        return env.get('tgt')
+    return env
+
+
+def env_expected_obs(kind, outcome):
+    obs = ['vars_y', 'vars_j', 'input_y']
+    if kind == 'L' and outcome == 'err':
+        return obs + ['puberr_y', 'puberr_j', 'cond_j', 'outerr_y', 'outerr_j']
+    obs += ['publish_y', 'publish_j', 'cond_y', 'input_j', 'target', 'wait_before']
+    if kind == 'W':
+        obs.append('with_items')
+    if outcome == 'ok':
+        if kind != 'L':
+            obs += ['call_publish_y', 'call_publish_j']
+        return obs + ['adhoc_y', 'adhoc_j', 'output_y', 'output_j']
+    return obs + ['call_puberr_y', 'call_puberr_j', 'cond_j', 'outerr_y', 'outerr_j']
+
+
+def env_driver(seed):
+    """The engine with the WF_ENV definitions and the two ad-hoc actions present (created once)."""
+    d = driver()
+    if not _DRV.get('env_defs'):
+        from mistral.services import adhoc_actions
+        d.reset(0)
+        _DRV['rows_defs'] = False
+        adhoc_actions.create_actions(ENV_ACTIONS)
+        d.create_workflows(WF_ENV)
+        _DRV['env_defs'] = True
+    soft_reset(d, seed)
+    return d
+
+
+def run_env(case, seed=0):
+    """case: chain (list of 'P'/'W'/'E', the callers from the root down; a leaf is appended), env (dict: the
+    root's environment), outcome ('ok' / 'err': the leaf action fails), via_rpc, env_by_name.
+    Returns the executions of the tree with what env() evaluated to at every expression site."""
+    from oslo_config import cfg
+    from mistral.db.v2 import api as db_api
+    d = env_driver(seed)
+    if case['outcome'] == 'err':
+        d.oracle[('boom', None, None)] = ('err', 'leaf failed')
+    names = ['env' + k for k in case['chain']] + ['envL']
+    targets = {}
+    orig = d.add_pending
+
+    def rec(kind, payload):
+        if kind == 'exec':
+            targets[payload['action_ex_id']] = payload['target']
+        return orig(kind, payload)
+    d.add_pending = rec
+    cfg.CONF.set_override('start_subworkflows_via_rpc', bool(case.get('via_rpc')), group='engine')
+    try:
+        env_param = case['env']
+        if case.get('env_by_name'):
+            with db_api.transaction():
+                db_api.delete_environments()
+                db_api.create_environment({'name': 'c09env', 'variables': case['env'], 'scope': 'private'})
+            env_param = 'c09env'
+        out, wid = d.start_workflow(names[0], {'chain': names[1:]}, env=env_param)
+        d.run_schedule(random.Random(seed))
+    finally:
+        cfg.CONF.clear_override('start_subworkflows_via_rpc', group='engine')
+        del d.add_pending
+    execs = []
+    with db_api.transaction():
+        wfs = {w.id: w for w in db_api.get_workflow_executions()}
+        tasks = {t.id: t for t in db_api.get_task_executions()}
+        acts = {}
+        for a in db_api.get_action_executions():
+            acts.setdefault(a.task_execution_id, []).append(a)
+
+        def parent(w):
+            t = tasks.get(w.task_execution_id)
+            return wfs.get(t.workflow_execution_id) if t is not None else None
+
+        def chain_up(w):
+            res = []
+            while w is not None:
+                res.append(w)
+                w = parent(w)
+            return res[::-1]
+        for w in wfs.values():
+            up = chain_up(w)
+            depth = len(up) - 1
+            by_name = {}
+            for t in tasks.values():
+                if t.workflow_execution_id == w.id:
+                    by_name.setdefault(t.name, []).append(t)
+            obs = {}
+
+            def one(name):
+                ts = by_name.get(name, [])
+                return ts[0] if len(ts) == 1 else None
+
+            def act_of(t, field):
+                al = acts.get(t.id, []) if t is not None else []
+                if len(al) != 1:
+                    return MISSING
+                if field == 'input':
+                    return (al[0].input or {}).get('value', MISSING)
+                if field == 'result':
+                    return (al[0].output or {}).get('result', MISSING)
+                return targets.get(al[0].id, MISSING)
+            for lang in ('y', 'j'):
+                obs['vars_' + lang] = (w.context or {}).get('s_vars_' + lang, MISSING)
+                if w.state == 'SUCCESS':
+                    obs['output_' + lang] = (w.output or {}).get('s_output_' + lang, MISSING)
+                if w.state == 'ERROR':
+                    obs['outerr_' + lang] = (w.output or {}).get('s_outerr_' + lang, MISSING)
+            t_act, t_yes, t_no, t_call = one('t_act'), one('t_yes'), one('t_no'), one('t_call')
+            obs['input_y'] = act_of(t_act, 'input')
+            for t, pre in ((t_act, ''), (t_call, 'call_')):
+                if t is not None and t.state in ('SUCCESS', 'ERROR'):
+                    for lang in ('y', 'j'):
+                        key = 's_%s%s_%s' % (pre, 'publish' if t.state == 'SUCCESS' else 'puberr', lang)
+                        obs['%s%s_%s' % (pre, 'publish' if t.state == 'SUCCESS' else 'puberr', lang)] = \
+                            (t.published or {}).get(key, MISSING)
+            if t_act is not None and t_act.state == 'SUCCESS' and ((t_yes is None) != (t_no is None)):
+                obs['cond_y'] = t_yes is not None
+            failed = [t for t in (t_act, t_call) if t is not None and t.state == 'ERROR']
+            if failed and (('t_eyes' in by_name) != ('t_eno' in by_name)):
+                obs['cond_j'] = 't_eyes' in by_name
+            if t_yes is not None and t_yes.state == 'SUCCESS':
+                obs['input_j'] = act_of(t_yes, 'input')
+                obs['target'] = act_of(t_yes, 'target')
+                obs['wait_before'] = 'wait_before_policy' in (t_yes.runtime_context or {})
+            if t_call is not None and 'with_items' in (t_call.runtime_context or {}):
+                obs['with_items'] = (t_call.runtime_context['with_items'] or {}).get('count', MISSING)
+            for nm, key in (('t_adhoc', 'adhoc_y'), ('t_adhoc_j', 'adhoc_j')):
+                t = one(nm)
+                if t is not None and t.state == 'SUCCESS':
+                    obs[key] = act_of(t, 'result')
+            execs.append({
+                'name': w.workflow_name, 'kind': w.workflow_name[3:], 'depth': depth, 'state': w.state,
+                'state_info': (w.state_info or '')[:300],
+                'in_tree': up[0].id == wid, 'root_ok': (w.root_execution_id == wid) if depth else (w.root_execution_id is None),
+                'path': [(x.runtime_context or {}).get('index', 0) for x in up[1:]],
+                'owns': [dict((x.params or {}).get('env') or {}) for x in up[1:]],
+                'obs': obs,
+                'task_errors': sorted((t.name, (t.state_info or '')[:200]) for ts in by_name.values() for t in ts
+                                      if t.state == 'ERROR' and t.name != 't_call')})
+    execs = [e for e in execs if e['in_tree']]
+    execs.sort(key=lambda e: (e['depth'], e['path']))
+    return {'start': out, 'execs': execs, 'entry_errors': [(e['event'], e['type']) for e in d.entry_errors]}
+
+
+def env_oracle(ctx, case, res):
+    """The property text on the real engine: at every depth every expression sees the ROOT execution's environment
+    (also below a caller that handed its child an environment of its own); every descendant records the root."""
+    rep = {'kind': 'env_tree', 'case': case}
+    root_env = case['env']
+    kinds = list(case['chain']) + ['L']
+    if res['start'] != 'ok' or res['entry_errors']:
+        ctx.fail('env:run-failed', 'the tree could not be run: start=%s escaped=%r' % (res['start'], res['entry_errors']), rep)
+        return
+    want = 1
+    for depth, kind in enumerate(kinds):
+        level = [e for e in res['execs'] if e['depth'] == depth]
+        for e in level:
+            if e['kind'] != kind:
+                ctx.fail('env:run-failed', 'execution %s at depth %d, expected env%s' % (e['name'], depth, kind), rep)
+                continue
+            if not e['root_ok']:
+                ctx.fail('subwf:system-param-wrong', 'descendant %s (depth %d) does not record the root of the tree' % (e['name'], depth), rep)
+            for o in env_expected_obs(kind, case['outcome']):
+                got = e['obs'].get(o, MISSING)
+                exp = env_project(o, root_env)
+                if got != exp:
+                    sig = 'env:site-not-root-env:%s:%d' % (o[:-2] if o.endswith(('_y', '_j')) else o, depth)
+                    if sig not in _ENV_SIGS and len(_ENV_SIGS) >= 6:
+                        continue          # a handful of distinct failing sites is enough for one report
+                    _ENV_SIGS.add(sig)
+                    ctx.fail(sig,
+                             '%s of %s at depth %d (path %r, own params env %r) saw %r; the root execution\'s environment gives %r '
+                             '[execution %s %s; failed tasks %r]' % (
+                                 o, e['name'], depth, e['path'], e['owns'][-1] if e['owns'] else None, got, exp,
+                                 e['state'], e['state_info'][:150], e['task_errors'][:2]), rep)
+        if len(level) != want:
+            ctx.fail('env:site-not-root-env:tree:%d' % depth, '%d executions at depth %d, the root environment (items %r) requires %d' % (
+                len(level), depth, root_env.get('items'), want), rep)
+        if kind == 'W':
+            want *= len(root_env['items'])
+
+
+def env_enc(v):
+    return json.dumps(v, sort_keys=True, separators=(',', ':')).replace('"', "'")
+
+
+def env_dec(s):
+    return json.loads(s.replace("'", '"'))
+
+
+def coq_env(env):
+    return coq_list(['(%s, %s)' % (coq_str(k), coq_str(env_enc(env[k]))) for k in sorted(env)]) if env else '[]'
+
+
+def parse_seen_all(text):
+    out = {}
+    for name, val in core.re.findall(r'\("([^"]*)",\s*"([^"]*)"\)', text):
+        if val == 'NONE':
+            out[name] = None
+        else:
+            assert val.startswith('ENV:'), val
+            out[name] = {kv.split('=', 1)[0]: env_dec(kv.split('=', 1)[1]) for kv in val[4:].split(';') if kv}
+    return out
+
+
+ENV_KEYS = ['region', 'n', 'cfg', 'zone', 'a_b', 'items2']
+ENV_VALS = ['eu', 'us-east', 0, 1, 42, [1, 2], [], {'k': 'v'}, {'deep': {'x': [1, {'y': 2}]}}, 'ROOT', 'MID', True, None]
+
+
+def gen_env_case(rng, depth=None):
+    depth = rng.choice([0, 1, 1, 2, 2, 3, 3]) if depth is None else depth
+    env = {'tok': 'ROOT', 'items': rng.choice([[1], [1, 2], [5, 6], [3]]), 'wb': rng.choice([0, 0, 1]),
+           'tgt': rng.choice(['roottgt', 'grp-a', 'x1'])}
+    for k in rng.sample(ENV_KEYS, rng.randrange(0, 4)):
+        env[k] = rng.choice(ENV_VALS)
+    return {'chain': [rng.choice(['P', 'P', 'W', 'E']) for _ in range(depth)], 'env': env,
+            'outcome': rng.choice(['ok', 'ok', 'err']), 'via_rpc': rng.random() < 0.3, 'env_by_name': rng.random() < 0.15}
+
+
+def env_corpus():
+    import os
+    p = os.path.join(core.VERIF, 'corpus', 'C09', 'env_tree.json')
+    return [c['case'] for c in json.load(open(p))]
+
+
+def suite_env_tree(ctx):
+    """Real engine runs of generated trees (depth 0-3; plain / with-items / environment-passing callers; in-process and
+    via rpc; leaf ok / failing) with env() read at every expression site of every level.  Oracle first (no model), then
+    the same observations against Model/EnvTree.v env_seen over the translated Gen/EnvSites.v."""
+    rng = ctx.rng
+    cases = env_corpus() + [gen_env_case(rng) for _ in range(ctx.n(22, 300))]
+    runs, exprs, keys = [], [], {}
+    shapes = {}
+    for i, c in enumerate(cases):
+        res = run_env(c, seed=i)
+        ctx.count('env_tree', json.dumps(c, sort_keys=True), nontrivial=bool(c['chain']))
+        ctx.cov['traces_validated_against_impl'] += 1
+        sk = '%d:%s:%s' % (len(c['chain']), ''.join(c['chain']), c['outcome'])
+        shapes[sk] = shapes.get(sk, 0) + 1
+        env_oracle(ctx, c, res)
+        runs.append(res)
+        for e in res['execs']:
+            k = json.dumps([c['env'], e['owns']], sort_keys=True)
+            if k not in keys:
+                keys[k] = len(exprs)
+                steps = coq_list(['(%d, %s)' % (j + 1, coq_env(o)) for j, o in enumerate(e['owns'])]) if e['owns'] else '[]'
+                exprs.append('seen_all %s %s' % (coq_env(c['env']), steps))
+    ctx.cov['suites']['env_tree']['shapes'] = shapes
+    ctx.sample({'suite': 'env_tree', 'case': cases[0]})
+    try:
+        model = [parse_seen_all(r) for r in core.coq_eval('c09env', ENV_IMPORTS, exprs, chunk=40)]
+    except core.CoqEvalError as e:
+        ctx.obligation('correspondence:env-model-evaluates', False, str(e))
+        return
+    nobs = 0
+    for c, res in zip(cases, runs):
+        for e in res['execs']:
+            m = model[keys[json.dumps([c['env'], e['owns']], sort_keys=True)]]
+            for o, got in sorted(e['obs'].items()):
+                site = env_obs_site(o)
+                if site not in m:
+                    ctx.disagree('env_tree', {'case': c, 'obs': o}, 'site %s is not in the translated list' % site, got)
+                    continue
+                nobs += 1
+                ctx.cov['disagreements_checked'] += 1
+                exp = env_project(o, m[site])
+                if got != exp:
+                    ctx.disagree('env_tree', {'case': c, 'depth': e['depth'], 'path': e['path'], 'obs': o, 'site': site}, exp, got)
+    ctx.count('env_tree_obs', None, evaluations=nobs)
+    ctx.cov['suites']['env_tree']['observations_vs_model'] = nobs
+
+
 def engine_traces(ctx):
     """Real engine, oracle only (the core engine model has no sub-workflows): parent task mirrors child,
     root id, quiescent => final, no lost post-commit operation; plain and with-items callers, pause/resume."""
@@ -691,8 +1142,10 @@ def run(ctx):
                        'parents, 2 namespaces, definitions in a real DB; param split: seeded dictionaries over a key pool that '
                        'contains the system param names, declared lists, root present/absent, notify, index, rpc/in-process, on the '
                        'real WorkflowAction.schedule; rows: real engine runs (flat, 3-deep, with-items; namespaces; leaf ok/err/cancel); '
+                       'env_tree: corpus + seeded trees of depth 0-3 over caller kinds P/W/E, seeded root environments (fixed keys tok / '
+                       'items / wb / tgt + random keys with scalar, list, nested values), leaf ok/err, rpc, environment by name; '
                        'distinct = distinct (suite, input)')
-    for s in (suite_subwf_rows, suite_param_split, suite_rstrip, suite_resolve, suite_result_to_parent, engine_traces):
+    for s in (suite_subwf_rows, suite_env_tree, suite_param_split, suite_rstrip, suite_resolve, suite_result_to_parent, engine_traces):
         t0 = time.time()
         s(ctx)
         ctx.cov['suites'].setdefault(s.__name__, {})['wall_s'] = round(time.time() - t0, 1)
@@ -702,6 +1155,8 @@ def run(ctx):
 
 def search(ctx):
     rng = ctx.rng
+    for i, c in enumerate(env_corpus() + [gen_env_case(rng, depth=dp) for dp in (1, 2, 3) for _ in range(10)]):
+        env_oracle(ctx, c, run_env(c, seed=i))
     for c in SPLIT_CORPUS + [gen_split_case(rng) for _ in range(5000)]:
         split_oracle(ctx, c, real_schedule(c))
     for i, c in enumerate(ROW_CASES):
@@ -739,6 +1194,18 @@ def replay(obj):
             print(json.dumps({k: row[k] for k in ('name', 'depth', 'state', 'input', 'params', 'root_ok', 'ns_param', 'index_rc')}, default=str))
         print('entry errors: %r' % (res['entry_errors'],))
         rows_oracle(ctx, c, res)
+    elif kind == 'env_tree':
+        c = r['case']
+        res = run_env(c)
+        print('root environment: %s' % json.dumps(c['env'], sort_keys=True))
+        for e in res['execs']:
+            print('depth %d %s path=%r state=%s own params env=%s' % (e['depth'], e['name'], e['path'], e['state'],
+                                                                      json.dumps(e['owns'][-1] if e['owns'] else c['env'], sort_keys=True)))
+            for o, v in sorted(e['obs'].items()):
+                ok = v == env_project(o, c['env'])
+                print('    %-16s %s %s' % (o, 'root-env' if ok else 'NOT-ROOT-ENV', '' if ok else json.dumps(v, sort_keys=True, default=str)))
+        print('entry errors: %r' % (res['entry_errors'],))
+        env_oracle(ctx, c, res)
     elif kind == 'param_split':
         c = r['case']
         st = real_schedule(c)
